@@ -16,6 +16,10 @@ package generator
 //@   loop 1 /* for i, v := range values */
 //@     invariant [C13] len(quoted) == len(values) && (forall j int :: 0 <= j && j < #i ==> quoted[j] == jsonQuote(values[j]))
 
+//@ func regoStringSet(values []string) string
+//@   ensures [C07:empty-list-is-set()] (len(values) == 0 ==> result == "set()") && (len(values) > 0 ==> (hasPrefix(result, "{ ") && hasSuffix(result, "}")))
+//@   ensures [C13:each-value-quoted] len(values) > 0 ==> (exists q []string :: len(q) == len(values) && (forall j int :: 0 <= j && j < len(values) ==> q[j] == jsonQuote(values[j])) && result == "{ " + strJoin(q, ",") + "}")
+
 //@ func sanitizedMessage(s string) string
 //@   verify [C07]
 //@   ensures [C13:message-literal] result == jsonQuote(replaceAll(s, "\"", "'"))
